@@ -918,10 +918,11 @@ def radius(ctx, root_id):
             own = child_tests.get((id(p), c), [])
             decisions[c].append((any(p.child(v) == c for ev, v in ps_), own, p))
     any_child_test = bool(child_tests)
+    plane_used = radius_plane(V, ctx, ex, its, pt, r, decisions)
     for c in ("left", "right"):
         ds = decisions[c]
         for pushed, own, p in ds:
-            if pushed or not any_child_test:
+            if pushed or not any_child_test or plane_used:
                 continue
             if not own:
                 if any(pu for pu, _, _ in ds):
@@ -968,7 +969,8 @@ def radius(ctx, root_id):
             for e, pol, _, kind in p.st.conds[(p.leaf_cond or 0) + 1:ev.nconds]:
                 if kind in ("if", "ifexp", "compr"):
                     e2, _ = au.strip_not(e, pol)
-                    ok_g = isinstance(e2, ast.Compare) and any(p.box_dist(s_) is not None for s_ in [e2.left] + list(e2.comparators))
+                    ok_g = (isinstance(e2, ast.Compare) and any(p.box_dist(s_) is not None for s_ in [e2.left] + list(e2.comparators))) \
+                        or f"{p.node}.split_value" in au.src(e2)
                     if not ok_g:
                         V.und("rguard", "C11-S1", "query_radius queues a child under a condition that is not a box-distance test")
     # ---------------- the filter of a visited leaf
@@ -979,6 +981,63 @@ def radius(ctx, root_id):
             if ev.kind == "return" and ev.loops and len(ev.stack) == 1:
                 V.und("early", "C11-S1", "query_radius returns from inside the search loop")
     V.flush()
+
+
+def radius_plane(V, ctx, ex, its, pt, r, decisions):
+    """pruning by the splitting plane of the visited node (`pt[node.split_axis] - node.split_value` compared with r) instead of the boxes.
+    The cell of the child holding the coordinates <= split value contains the plane itself: it may be left out only when
+    offset > r (strictly); the other child only when -offset >= r.  Returns True when such tests are used."""
+    used = False
+    facts = getattr(ctx, "_hg_kd_plane", None)
+    for c in ("left", "right"):
+        for pushed, own, p in decisions[c]:
+            A = f"{pt}[{p.node}.split_axis]"
+            Vv = f"{p.node}.split_value"
+            tests = []
+            for i, (e, pol, node, kind) in enumerate(p.st.conds):
+                if kind in ("if", "ifexp", "compr") and (p.leaf_cond is None or i > p.leaf_cond) and Vv in au.src(e):
+                    tests.append((e, pol))
+            if not tests:
+                continue
+            used = True
+            if pushed:
+                continue
+            if facts is None or facts["left_low"] not in ({True}, {False}) or facts["recorded"] != {True}:
+                if facts is not None and facts["recorded"] == {False} or (facts is not None and False in facts["recorded"]):
+                    V.fail("plane", "C11-O1", "query_radius prunes with node.split_axis / node.split_value, which the constructor does not record as the plane the points were split at",
+                           "a plane that is not the one separating the two children prunes subtrees that hold points of the ball")
+                else:
+                    V.und("plane", "C11-O1", "query_radius prunes with the splitting plane of the node, but which child lies on which side could not be read from the constructor")
+                continue
+            low = (c == "left") == (True in facts["left_low"])
+            try:
+                def spec(env, low=low):
+                    if env[r] < 0:
+                        return True
+                    off = env[A] - env[Vv]
+                    return off > env[r] if low else -off >= env[r]
+                nums_, frees_ = set(), []
+                for e_, _p in tests:
+                    L.collect(e_, nums_, frees_)
+                if frees_ or not nums_ <= {A, Vv, r}:
+                    V.und("plane", "C11-O1", "a pruning test of query_radius on the splitting plane is not a plain comparison of the signed offset with the radius")
+                    continue
+                w = L.witness(tests, spec, extra_syms=(A, Vv, r), dom=range(-2, 4))
+            except (L.TooBig, KeyError):
+                V.und("plane", "C11-O1", "a pruning test of query_radius on the splitting plane is not a comparison of the signed offset with the radius")
+                continue
+            if w is None:
+                V.ok("plane", "C11-O1", "a child is left out only when the ball does not reach its side of the splitting plane")
+            elif any(isinstance(v_, bool) for v_ in w.values()):
+                V.und("plane", "C11-O1", "a pruning test of query_radius on the splitting plane is not a plain comparison of the signed offset with the radius")
+            else:
+                side = "at or below" if low else "above"
+                V.fail("plane", "C11-O1", f"query_radius leaves out the child holding the coordinates {side} the split value although the ball may reach its cell",
+                       f"e.g. coordinate {w.get(A)}, split value {w.get(Vv)}, r = {w.get(r)}: "
+                       + ("the points with coordinate equal to the split value belong to this child (the partition is `<= pivot`), so a ball tangent to the "
+                          "plane still contains them: the child may be skipped only when offset > r, strictly (radius 0 on a stored pivot point returns nothing)"
+                          if low else "points just beyond the plane are closer than r"))
+    return used
 
 
 def radius_filter(V, ex, its, pt, r, sym_r):
